@@ -645,6 +645,10 @@ pub struct DirBuild {
     /// handle returned by add_entry, per store per insertion
     pub bounds: Vec<Vec<jbk::Bound<jbk::EntryIdx>>>,
     pub index_meta: bool,
+    /// per store, per window: Some(i) = the index is created with a *lazy* offset, the handle of
+    /// insertion i (the entry the model places first in the window), as an application does
+    /// that lists the children of a directory from "wherever its first child ends up"
+    pub lazy_offsets: Vec<Vec<Option<usize>>>,
 }
 
 fn to_jbk_value(v: &DVal) -> jbk::Value {
@@ -668,6 +672,7 @@ pub fn build_dir(model: &DirModel) -> DirBuild {
     let mut estores = vec![];
     let mut windows = vec![];
     let mut all_bounds = vec![];
+    let mut lazy_offsets: Vec<Vec<Option<usize>>> = vec![];
     for sm in &model.stores {
         let mk = |p: &EffProp| match p.kind {
             PKind::UInt | PKind::Ref => schema::Property::new_uint(p.name),
@@ -721,9 +726,16 @@ pub fn build_dir(model: &DirModel) -> DirBuild {
         }
         estores.push(es);
         windows.push(sm.windows.clone());
+        lazy_offsets.push(
+            sm.windows
+                .iter()
+                .enumerate()
+                .map(|(wi, (_, off, cnt))| if *off < n && (off + cnt + wi) % 2 == 1 { Some(sm.order[*off]) } else { None })
+                .collect(),
+        );
         all_bounds.push(bounds);
     }
-    DirBuild { vstores, estores, windows, bounds: all_bounds, index_meta: model.index_meta }
+    DirBuild { vstores, estores, windows, bounds: all_bounds, index_meta: model.index_meta, lazy_offsets }
 }
 
 impl DirBuild {
@@ -732,11 +744,14 @@ impl DirBuild {
         for vs in self.vstores {
             dp.add_value_store(vs);
         }
-        for (es, wins) in self.estores.into_iter().zip(self.windows) {
+        for (si, (es, wins)) in self.estores.into_iter().zip(self.windows).enumerate() {
             let sid = dp.add_entry_store(es);
-            for (name, off, cnt) in wins {
+            for (wi, (name, off, cnt)) in wins.into_iter().enumerate() {
                 let (fd, key) = if self.index_meta { index_meta_of(&name) } else { ([0; 4], 0) };
-                dp.create_index(&name, fd.into(), key.into(), sid, (cnt as u32).into(), jbk::EntryIdx::from(off as u32).into());
+                match self.lazy_offsets[si][wi] {
+                    Some(i) => dp.create_index(&name, fd.into(), key.into(), sid, (cnt as u32).into(), self.bounds[si][i].clone().into()),
+                    None => dp.create_index(&name, fd.into(), key.into(), sid, (cnt as u32).into(), jbk::EntryIdx::from(off as u32).into()),
+                }
             }
         }
         self.bounds
@@ -904,6 +919,57 @@ fn typed_variant_ids<const MASK: u8>(store: &jbk::reader::EntryStore, first: usi
     Ok(out)
 }
 
+/// The typed reading path of one property (`layout::Property::as_builder::<T>()` with the four
+/// specialised builders `IntProperty`, `SignedProperty`, `ArrayProperty`, `ContentProperty`, each
+/// `create`d on `EntryStore::get_entry_reader`): what an application with a hand-written entry type
+/// uses instead of `AnyBuilder`.
+pub enum TypedBuilder {
+    U(jbk::reader::builder::IntProperty),
+    S(jbk::reader::builder::SignedProperty),
+    A(jbk::reader::builder::ArrayProperty),
+    C(jbk::reader::builder::ContentProperty),
+}
+
+impl TypedBuilder {
+    /// keeps the builder matching the kind the model expects; the three other kinds must have answered None
+    pub fn select(
+        u: Option<jbk::reader::builder::IntProperty>,
+        s: Option<jbk::reader::builder::SignedProperty>,
+        a: Option<jbk::reader::builder::ArrayProperty>,
+        c: Option<jbk::reader::builder::ContentProperty>,
+        want: &DVal,
+    ) -> Result<TypedBuilder, String> {
+        let kinds = [u.is_some(), s.is_some(), a.is_some(), c.is_some()];
+        let want_kinds = [matches!(want, DVal::U(_)), matches!(want, DVal::S(_)), matches!(want, DVal::A(_)), matches!(want, DVal::C(..))];
+        if kinds != want_kinds {
+            return Err(format!("typed builders accepted [int, signed, array, content] = {kinds:?}, the model says {want_kinds:?}"));
+        }
+        Ok(match want {
+            DVal::U(_) => TypedBuilder::U(u.unwrap()),
+            DVal::S(_) => TypedBuilder::S(s.unwrap()),
+            DVal::A(_) => TypedBuilder::A(a.unwrap()),
+            DVal::C(..) => TypedBuilder::C(c.unwrap()),
+        })
+    }
+    pub fn read(&self, r: &jbk::reader::ByteSlice) -> Result<DVal, String> {
+        use jbk::reader::builder::PropertyBuilderTrait;
+        Ok(match self {
+            TypedBuilder::U(b) => DVal::U(b.create(r).map_err(|e| e.to_string())?),
+            TypedBuilder::S(b) => DVal::S(b.create(r).map_err(|e| e.to_string())?),
+            TypedBuilder::A(b) => {
+                let a = b.create(r).map_err(|e| e.to_string())?;
+                let mut v = jbk::SmallBytes::new();
+                a.resolve_to_vec(&mut v).map_err(|e| e.to_string())?;
+                DVal::A(v.to_vec())
+            }
+            TypedBuilder::C(b) => {
+                let c = b.create(r).map_err(|e| e.to_string())?;
+                DVal::C(c.pack_id.into_u16(), c.content_id.into_u32())
+            }
+        })
+    }
+}
+
 /// Compare one index of an opened directory pack with the model.
 pub fn verify_store_against_model(
     dp: &Arc<jbk::reader::DirectoryPack>,
@@ -981,6 +1047,66 @@ pub fn verify_store_against_model(
                         VNAMES[v as usize],
                         (0..5).filter(|k| mask >> k & 1 == 1).map(|k| VNAMES[k]).collect::<Vec<_>>(),
                         g,
+                        want
+                    );
+                    evals += 1;
+                }
+            }
+        }
+        // typed reading of every property (specialised builders instead of AnyBuilder)
+        if *cnt > 0 {
+            let store = match oi.index.get_store(&estorage) {
+                Ok(s) => s,
+                Err(e) => fail!(format!("{sig_prefix}store-unreadable"), "index {wname}: {e}"),
+            };
+            let layout = store.layout();
+            let mut builders: BTreeMap<(Option<u8>, String), TypedBuilder> = BTreeMap::new();
+            // every entry when the window is small, a spread of <= 64 entries otherwise
+            let step = (*cnt / 64).max(1);
+            for i in (0..*cnt).step_by(step) {
+                let exp = sm.expected_at(off + i);
+                let r = match store.get_entry_reader(jbk::EntryIdx::from((off + i) as u32)) {
+                    Some(r) => r,
+                    None => fail!(format!("{sig_prefix}entry-none"), "index {wname}: no entry reader for store position {}", off + i),
+                };
+                for (name, want) in &exp.1 {
+                    let is_common = oi.common_names.iter().any(|n| n == name);
+                    let key = (if is_common { None } else { exp.0 }, name.clone());
+                    if !builders.contains_key(&key) {
+                        let prop = if is_common {
+                            layout.common.iter().find(|(n, _)| n.to_string() == *name).map(|(_, p)| p)
+                        } else {
+                            layout.variant_part.as_ref().and_then(|vp| vp.variants.get(exp.0.unwrap() as usize)).and_then(|v| v.iter().find(|(n, _)| n.to_string() == *name).map(|(_, p)| p))
+                        };
+                        let Some(prop) = prop else {
+                            fail!(format!("{sig_prefix}property-missing"), "index {wname}: the layout has no property {name} (variant {:?})", key.0);
+                        };
+                        use jbk::reader::builder::{ArrayProperty, ContentProperty, IntProperty, SignedProperty};
+                        let vs = vstorage.as_ref();
+                        let parts = (|| -> jbk::Result<_> {
+                            Ok((prop.as_builder::<IntProperty, _>(vs)?, prop.as_builder::<SignedProperty, _>(vs)?, prop.as_builder::<ArrayProperty, _>(vs)?, prop.as_builder::<ContentProperty, _>(vs)?))
+                        })();
+                        let (u, sg, a, c) = match parts {
+                            Ok(p) => p,
+                            Err(e) => fail!(format!("{sig_prefix}entry-error"), "index {wname} property {name}: as_builder: {e}"),
+                        };
+                        match TypedBuilder::select(u, sg, a, c, want) {
+                            Ok(b) => {
+                                builders.insert(key.clone(), b);
+                            }
+                            Err(e) => fail!(format!("{sig_prefix}typed-builder-kind"), "index {wname} property {name}: {e}"),
+                        }
+                    }
+                    let got = match builders[&key].read(&r) {
+                        Ok(g) => g,
+                        Err(e) => fail!(format!("{sig_prefix}entry-error"), "index {wname} entry {i} property {name} through its typed builder: {e}"),
+                    };
+                    ensure!(
+                        got == *want,
+                        format!("{sig_prefix}typed-value-mismatch"),
+                        "index {wname} entry {i} (store position {}) property {name}: the typed builder reads {:?}, written {:?}",
+                        off + i,
+                        got,
                         want
                     );
                     evals += 1;
